@@ -318,6 +318,7 @@ def run(prog, R):
 
     # ---------------------------------------------------------------- SER
     ser_rules(prog, R)
+    ser_validation_rules(prog, R)
 
 
 def closure_separator(cb):
@@ -1376,3 +1377,94 @@ def len2_rule(prog, R, trimmer):
                         R.add('LEN-2', b, 'eof-completion-asks-for-trimmed-comparison#%d' % n, okc, site(b, s.line), undecided=(not okc) and not called_v, detail=
                               'the record is completed at the end of the input (its last line has no terminator); the validator is %s the trimmed lengths' % ('told to compare' if okc else 'NOT told to compare'))
     R.floor('LEN-2', 2)
+
+
+def ser_validation_rules(prog, R):
+    """SER-4: a deserialiser that validates what it reads (`#[serde(try_from = "..")]`) must accept everything the reader can
+    store in a set.  Two contradictions with facts of the reader are decided; a validation that shows neither is not judged."""
+    R.rule('SER-4', 'a validating deserialiser of a record set does not reject states the reader produces: an offset the reader sets to the buffer length is '
+                    'not required to be smaller than the buffer length; entries of the offsets vector beyond the logical record count (stale, kept for reuse) are not validated')
+    from flow import is_buffer_call
+    cg = prog.call_graph()
+    for fmt in ('fasta', 'fastq'):
+        ty = '%s::RecordSet' % fmt
+        entry = [b for b in prog.bodies.values() if b.promoted_of is None and re.match(r'<%s as std::convert::TryFrom(<.*>)?>::try_from$' % re.escape(ty), b.key)]
+        if not entry:
+            continue          # no validating conversion: nothing to judge (SER-1 covers the derived impls)
+        scope = set()
+        work = [b.path for b in entry]
+        while work:
+            q = work.pop()
+            if q in scope or q not in prog.bodies:
+                continue
+            scope.add(q)
+            work += list(cg.get(q, ()))
+            work += [c.path for c in prog.closures_of(prog.bodies[q])]
+        scope = [prog.bodies[q] for q in sorted(scope) if prog.bodies[q].file.endswith('%s.rs' % fmt)]
+        # ---- fact 1: offsets the reader sets to the length of its buffer
+        lenfields = {}
+        for b in prog.bodies.values():
+            if not b.key.startswith('%s::Reader::' % fmt) or is_derive(b):
+                continue
+            du = DefUse(b)
+            for blk in b.blocks:
+                if blk.idx not in b.cfg.rset:
+                    continue
+                for st in blk.stmts:
+                    if st.k != 'assign' or st.place.local != 1 or st.rv.k not in ('use', 'cast'):
+                        continue
+                    names = tuple(q['name'] for q in st.place.proj if q['k'] == 'field')
+                    if names[:1] != ('buf_pos',) or len(names) < 2:
+                        continue
+                    rs = roots_of(b, st.rv.ops[0], du)
+                    if rs and all(r[0] == 'call' and r[1].callee and r[1].callee.name == 'len' and
+                                  any(x[0] == 'call' and is_buffer_call(prog, x[1].callee) for x in roots_of(b, r[1].args[0], du, through_calls=identity_through)) for r in rs):
+                        lenfields[names[1:]] = site(b, st.line)
+        n = 0
+        for b in scope:
+            du = DefUse(b)
+            for blk in b.blocks:
+                if blk.idx not in b.cfg.rset:
+                    continue
+                for st in blk.stmts:
+                    if st.k != 'assign' or st.rv.k != 'bin' or st.rv.j['op'] not in ('Lt', 'Le', 'Gt', 'Ge'):
+                        continue
+                    sides = []
+                    for o in st.rv.ops:
+                        kind = None
+                        if not o.is_const:
+                            rs = roots_of(b, o, du)
+                            if rs and all(r[0] == 'arg' and 'BufferPosition' in b.local_tys[r[1]] and tuple(q[1] for q in r[-1]) in lenfields for r in rs):
+                                kind = ('field', tuple(q[1] for q in rs[0][-1]))
+                            elif rs and all((r[0] == 'arg' and b.local_tys[r[1]].strip() == 'usize' and not r[-1]) or (r[0] == 'call' and r[1].callee and r[1].callee.name == 'len') for r in rs):
+                                kind = ('len',)
+                        sides.append(kind)
+                    if None in sides or {sides[0][0], sides[1][0]} != {'field', 'len'}:
+                        continue
+                    field_first = sides[0][0] == 'field'
+                    fld = sides[0][1] if field_first else sides[1][1]
+                    op = st.rv.j['op']
+                    # on which side of the comparison does "offset == length" fall: with the (certainly invalid) offset > length ?
+                    with_invalid = (op, field_first) in (('Lt', True), ('Ge', True), ('Gt', False), ('Le', False))
+                    n += 1
+                    R.add('SER-4', b, 'offset-may-equal-buffer-length#%d' % n, not with_invalid, site(b, st.line),
+                          'the validation compares %s with the buffer length (%s): the value "offset = length" %s; the reader stores the buffer length into that offset at %s (a record ending with the input)' % (
+                              '.'.join(fld), op, 'is treated like an offset beyond the buffer: such sets are rejected' if with_invalid else 'is accepted', lenfields[fld]))
+        # ---- fact 2: a set with a logical record count keeps stale entries behind it
+        adt = prog.adts.get(ty)
+        counted = bool(adt) and any(fd['ty'].strip() == 'usize' for fd in adt['variants'][0]['fields'])
+        if counted:
+            for b in scope:
+                du = DefUse(b)
+                bounded = any(t.callee and (t.callee.path in ('std::iter::Iterator::take',) or (t.callee.path in SLICE_INDEX and 'Range' in ' '.join(t.callee.targs))) for _, t in b.calls())
+                for x, t in b.calls():
+                    if not (t.callee and t.callee.name in ('iter', 'into_iter') and t.args):
+                        continue
+                    rs = roots_of(b, t.args[0], du, through_calls=identity_through)
+                    vec = rs and all(r[0] == 'arg' and r[-1] for r in rs) and 'BufferPosition' in (t.callee.resolved or '') + ' '.join(t.callee.targs)
+                    if not vec:
+                        continue
+                    n += 1
+                    R.add('SER-4', b, 'only-counted-entries-validated#%d' % n, bounded, site(b, t.line),
+                          'the validation walks over the offsets vector %s by the record count: entries behind the count are leftovers of earlier batches (kept for reuse, serialised as they are) and need not fit the buffer' % (
+                              'bounded' if bounded else 'NOT bounded'))
